@@ -7,6 +7,7 @@
 #include "ccl/semantic/RSForm.h"
 #include "ccl/tools/JSON.h"
 #include "ccl/tools/EntityGenerator.h"
+#include "ccl/ops/RSOperations.h"
 #include "ccl/rslang/SyntaxTree.h"
 
 #include <deque>
@@ -110,6 +111,68 @@ static ConceptRecord RecordOf(const json& r) {
   return rec;
 }
 
+// ------------------------------------------------------------------ C13: extraction operations
+static std::string RenameAliases(const std::string& type, const std::map<std::string, std::string>& map) {
+  std::string out; size_t i = 0;
+  while (i < type.size()) {
+    if (std::isupper(static_cast<unsigned char>(type[i])) && i + 1 < type.size() && std::isdigit(static_cast<unsigned char>(type[i + 1]))) {
+      size_t j = i + 1; while (j < type.size() && std::isdigit(static_cast<unsigned char>(type[j]))) ++j;
+      const auto name = type.substr(i, j - i); const auto it = map.find(name); out += it == map.end() ? name : it->second; i = j;
+    } else out += type[i++];
+  }
+  return out;
+}
+static void CheckOneExtraction(const RSForm& src, const json& srcProj, const char* opName, const json& sel, bool specDefined, const json& expect,
+                               bool implDefined, const std::unique_ptr<RSForm>& res, const json& wit, vh::Report& r) {
+  ++r.checks;
+  const json ctx = { {"operation", opName}, {"selection", sel} };
+  if (implDefined != (res != nullptr)) { r.Violation("C13", std::string(opName) + ": Execute disagrees with IsCorrectlyDefined", wit, ctx); return; }
+  if (specDefined && !implDefined) { r.Violation("C13", std::string(opName) + ": well-formed selection refused", wit, ctx); return; }
+  if (!specDefined && implDefined) { r.Drift("C13", std::string(opName) + ": selection accepted that the model refuses", wit, ctx); return; }
+  if (!res) return;
+  std::map<EntityUID, const json*> srcItem; for (const auto& it : srcProj["items"]) srcItem[it["uid"].get<EntityUID>()] = &it;
+  // members and order
+  json members = json::array(); for (const auto u : res->List()) members.push_back(u);
+  if (members != expect["members"]) {
+    std::set<int> a, b; for (auto& x : members) a.insert(x.get<int>()); for (auto& x : expect["members"]) b.insert(x.get<int>());
+    json info = ctx; info["got"] = members; info["expected"] = expect["members"];
+    if (a == b) r.Violation("C13", std::string(opName) + ": relative order not kept", wit, info);
+    else { bool missing = false; for (int x : b) if (!a.count(x)) missing = true; r.Violation("C13", std::string(opName) + (missing ? ": constituent missing from the result" : ": constituent that does not belong to the result"), wit, info); }
+    return;
+  }
+  std::map<std::string, std::string> ren; std::set<std::string> newNames;
+  for (const auto& it : expect["items"]) { if (it["from"] != it["alias"]) ren[it["from"].get<std::string>()] = it["alias"].get<std::string>(); newNames.insert(it["alias"].get<std::string>()); }
+  size_t i = 0;
+  for (const auto u : res->List()) {
+    const auto& e = expect["items"][i++]; const auto& rs = res->GetRS(u); const auto& p = res->GetParse(u); const json& s = *srcItem.at(u);
+    json info = ctx; info["alias"] = e["from"]; info["newAlias"] = rs.alias;
+    if (rs.alias != e["alias"].get<std::string>()) { r.Drift("C13", std::string(opName) + ": alias numbering differs from model", wit, info); return; }
+    if (rs.definition != DefText(e["d"])) { info["got"] = rs.definition; info["expected"] = DefText(e["d"]); r.Violation("C13", std::string(opName) + ": definition not rewritten to the new names", wit, info); continue; }
+    // no name that resolved in the source dangles in the result
+    for (const auto d : src.RSLang().Graph().InputsFor(u)) if (!res->Contains(d)) { info["dangling"] = src.GetRS(d).alias; r.Violation("C13", std::string(opName) + ": result mentions a constituent that was left behind", wit, info); }
+    const bool ok = p.status == semantic::ParsingStatus::VERIFIED;
+    const std::string type = p.exprType.has_value() ? (std::holds_alternative<rslang::LogicT>(*p.exprType) ? std::string("LOGIC") : AsciiType(std::get<rslang::Typification>(*p.exprType).ToString())) : std::string{};
+    if (ok != s["ok"].get<bool>()) {
+      info["source"] = s["ok"]; info["result"] = ok;
+      if (expect["captures"].get<bool>()) r.Violation("C13", "dangling name captured by the alias renumbering", wit, info);
+      else r.Violation("C13", std::string(opName) + ": correctness status not kept", wit, info);
+    } else if (ok && type != RenameAliases(s["type"].get<std::string>(), ren)) {
+      info["source"] = s["type"]; info["result"] = type; r.Violation("C13", std::string(opName) + ": typification not kept", wit, info);
+    }
+  }
+}
+static void CheckExtraction(const RSForm& form, const json& proj, const json& ops, const json& wit, vh::Report& r) {
+  for (const auto& o : ops) {
+    SetOfEntities sel; for (const auto& u : o["sel"]) sel.insert(u.get<EntityUID>());
+    { ops::OpExtractBasis op{ form, sel }; const bool d = op.IsCorrectlyDefined(); auto res = op.Execute();
+      CheckOneExtraction(form, proj, "basis", o["sel"], o["basisDefined"].get<bool>(), o["basis"], d, res, wit, r); }
+    { ops::OpMaxPart op{ form, sel }; const bool d = op.IsCorrectlyDefined(); auto res = op.Execute();
+      CheckOneExtraction(form, proj, "maxpart", o["sel"], o["maxDefined"].get<bool>(), o["maxpart"], d, res, wit, r); }
+  }
+  // the source is never modified by an extraction
+  if (Project(form) != proj) r.Violation("C13", "extraction modified its source schema", wit, {});
+}
+
 static void Handle(const json& c, vh::Report& r) {
   g_uids.clear();
   auto form = std::make_unique<RSForm>();
@@ -156,6 +219,7 @@ static void Handle(const json& c, vh::Report& r) {
   }
   const json got = Project(*form);
   const auto& obs = c["obs"];
+  std::string diffContent;
   // ---- content conformance with the specification (order, aliases, kinds, definitions, conventions, texts, tracking)
   {
     ++r.checks;
@@ -168,12 +232,15 @@ static void Handle(const json& c, vh::Report& r) {
       else if (g["term"].get<std::string>() != Atoms(e["term"])) diff = "term"; else if (g["text"].get<std::string>() != Atoms(e["text"])) diff = "text";
       else if (g["tracked"] != e["tracked"] || g["allow"] != e["allow"]) diff = "tracking";
     }
+    diffContent = diff;
     if (!diff.empty()) {
       const bool textual = diff == "definition" || diff == "convention" || diff == "term" || diff == "text";
       if (renames && textual && On("C08")) r.Violation("C08", "content after renaming: " + diff, wit, { {"got", got}, {"expected", obs} });
       else r.Drift("C09", "content differs from model: " + diff, wit, { {"got", got} });
     }
   }
+  // ---- C13: basis and maximal part of every selection against SchemaOps.tla
+  if (On("C13") && c.contains("ops") && diffContent.empty()) CheckExtraction(*form, got, c["ops"], wit, r);
   // ---- C07 (i): reported analysis == from-scratch analysis of the specification
   if (On("C07") && got["order"] == obs["order"]) {
     for (size_t i = 0; i < obs["items"].size(); ++i) {
@@ -279,6 +346,7 @@ static int Record(const vh::Args& args) {
   static const char* kinds[] = { "base", "constant", "structured", "term", "term", "term", "function", "axiom" };
   static const char* names[] = { "X1", "X2", "D1", "D2", "D3", "F1", "S1", "C1", "X9", "A1" };
   static const char* aliases[] = { "X1", "X2", "X3", "D1", "D2", "D3", "D4", "F1", "F2", "S1", "C1", "A1", "Q7", "D01" };
+  const bool extract = args.num("extract", 0) != 0;
   const int policy = static_cast<int>(args.num("seed", 1) % 3);       // identifier order: ascending / descending / scattered
   for (long t = 0; t < traces; ++t) {
     out << json{ {"e", "Reset"} }.dump() << std::endl; ++events;
@@ -286,7 +354,7 @@ static int Record(const vh::Args& args) {
     auto fresh = [&]() { ++counter; return static_cast<EntityUID>(policy == 0 ? counter : policy == 1 ? 1000 - counter : (counter * 37) % 997 + 1); };
     auto pick = [&]() -> EntityUID { std::vector<EntityUID> v; for (auto u : form->List()) v.push_back(u); if (v.empty() || g() % 12 == 0) return static_cast<EntityUID>(5000); return v[g() % v.size()]; };
     for (long st = 0; st < steps; ++st) {
-      json ev; const int w = static_cast<int>(g() % 118);   // 97..117: text operations
+      json ev, pendingExt; const int w = static_cast<int>(g() % 118);   // 97..117: text operations
       const int n = static_cast<int>(form->Core().size());
       g_uids.clear();
       if (w < 22 && n < maxCst) { const std::string k = kinds[g() % 8]; Def d = MakeDef(k == std::string("base") || k == std::string("constant") ? (g() % 6 ? 0 : 1) : static_cast<int>(g() % 10), names[g() % 10], names[g() % 10]);
@@ -306,6 +374,18 @@ static int Record(const vh::Args& args) {
         Def d = MakeDef(rec.type == CstType::base || rec.type == CstType::constant ? 0 : static_cast<int>(g() % 10), rec.alias, names[g() % 10]); rec.rs = d.text;
         const auto f = fresh(); g_uids.push_back(f); const auto got = form->InsertCopy(rec);
         ev = { {"e", "InsertCopy"}, {"uid", rec.uid}, {"a", rec.alias}, {"k", k}, {"def", d.tree}, {"fresh", got} }; }
+      else if (extract && w >= 97 && w < 108 && n > 0) {
+        const bool basis = g() % 2; SetOfEntities sel; const int how = static_cast<int>(g() % 4);
+        if (how == 0) { for (auto u : form->List()) if (semantic::IsBaseSet(form->GetRS(u).type)) sel.insert(u); }
+        if (how == 1) { for (auto u : form->List()) if (semantic::IsBaseNotion(form->GetRS(u).type) && g() % 3) sel.insert(u); }
+        if (sel.empty() || how >= 2) { const int k = 1 + static_cast<int>(g() % 3); for (int i = 0; i < k; ++i) sel.insert(pick()); }
+        std::unique_ptr<RSForm> res; bool defined = false;
+        if (basis) { ops::OpExtractBasis op{ *form, sel }; defined = op.IsCorrectlyDefined(); res = op.Execute(); }
+        else { ops::OpMaxPart op{ *form, sel }; defined = op.IsCorrectlyDefined(); res = op.Execute(); }
+        json x = { {"op", basis ? "basis" : "maxpart"}, {"sel", json::array()}, {"defined", defined && res != nullptr}, {"members", json::array()}, {"aliases", json::array()}, {"oks", json::array()} };
+        for (auto u : sel) x["sel"].push_back(u);
+        if (res) for (auto u : res->List()) { x["members"].push_back(u); x["aliases"].push_back(res->GetRS(u).alias); x["oks"].push_back(res->GetParse(u).status == semantic::ParsingStatus::VERIFIED); }
+        ev = { {"e", "Extract"} }; pendingExt = x; }
       else if (w < 97) { if (g() % 2) { form = LoadForm(Save(*form)); ev = { {"e", "SaveLoad"} }; } else { (void)form->Ops().DeleteDuplicates(); ev = { {"e", "DeleteDuplicates"} }; } }
       else { const auto u = pick(); const json q = RandAtoms(g, names, 10); const int which = static_cast<int>(g() % 3);
         if (which == 0) {
@@ -317,6 +397,7 @@ static int Record(const vh::Args& args) {
         else if (which == 1) { const bool r = form->SetDefinitionFor(u, Atoms(q)); ev = { {"e", "SetText"}, {"u", u}, {"q", q}, {"res", r} }; }
         else { json wds = json::array(); for (auto& a : q) wds.push_back(a["s"]); const bool r = form->SetConventionFor(u, Words(wds)); ev = { {"e", "SetConvention"}, {"u", u}, {"w", wds}, {"res", r} }; } }
       ev["obs"] = ObsOf(*form);
+      if (!pendingExt.is_null()) { ev["obs"]["ext"] = pendingExt; pendingExt = json(); }
       ev["obs"]["convs"] = json::array(); 
       out << ev.dump() << std::endl; ++events;
     }
